@@ -369,6 +369,14 @@ def _v5(ctx: Ctx, f: Func, loop: ast.While, var: str, dec_calls, body_nodes) -> 
                 and any(isinstance(v, ast.Call) and attr_tail(v) in ("is_exhausted", "eof") for v in cd.values) for cd, pol in facts)
             if either:
                 continue
+            # the same test written the other way round (De Morgan): `if len(x) != 0 or not dec.is_exhausted(): <go on> else: <stall arm>` - the true
+            # path knows that something was produced, or input is left
+            def _not_exh(v: ast.AST) -> bool:
+                return isinstance(v, ast.UnaryOp) and isinstance(v.op, ast.Not) and isinstance(v.operand, ast.Call) and attr_tail(v.operand) in ("is_exhausted", "eof")
+            either2 = any(pol and isinstance(cd, ast.BoolOp) and isinstance(cd.op, ast.Or) and all(
+                (about_emptiness(v) and _nonempty_polarity(v, True, produced)) or _not_exh(v) for v in cd.values) and any(_not_exh(v) for v in cd.values) for cd, pol in facts)
+            if either2:
+                continue
             ok = False
             for cname in sorted(counters):
                 idx_step = [i for i, n in enumerate(path) if n.kind == "stmt" and isinstance(n.ast, ast.AugAssign) and isinstance(n.ast.op, ast.Add) and norm(n.ast.target) == cname
